@@ -98,10 +98,13 @@ extern void mpt_dispatch_fini(MPT_STRUCT(dispatch) *disp)
 	mpt_command_clear(&disp->_d);
 	mpt_array_clone(&disp->_d, 0);
 	
+	/* unlink before notification: handler may use the dispatcher */
 	if (disp->_err.cmd) {
-		disp->_err.cmd(disp->_err.arg, 0);
+		MPT_TYPE(event_handler) cmd = disp->_err.cmd;
+		void *arg = disp->_err.arg;
 		disp->_err.cmd = 0;
 		disp->_err.arg = 0;
+		cmd(arg, 0);
 	}
 	if ((ctx = disp->_ctx)) {
 		ctx->_vptr->unref(ctx);
